@@ -1,11 +1,11 @@
 // leading/trailing run lengths of one {I} word: vstd specifies {I}::leading_zeros & co through
-// closed spec functions plus axioms; these lemmas restate the axioms over `wbit`.
-pub proof fn lemma_std_lz(v: {I})
-    ensures is_lz(v, vstd::std_specs::bits::{I}_leading_zeros(v) as int)
+// closed spec functions plus axioms; these lemmas restate the axioms over `wbit{X}`.
+pub proof fn lemma_std_lz{X}(v: {I})
+    ensures is_lz{X}(v, vstd::std_specs::bits::{I}_leading_zeros(v) as int)
 {
     vstd::std_specs::bits::axiom_{I}_leading_zeros(v);
     let lz = vstd::std_specs::bits::{I}_leading_zeros(v);
-    assert forall|j: nat| {I.bits} - lz <= j < {I.bits} implies !wbit(v, j) by {
+    assert forall|j: nat| {I.bits} - lz <= j < {I.bits} implies !wbit{X}(v, j) by {
         let ju = j as {I};
         assert((v >> ju) & 1{I} == 0{I});
     }
@@ -15,12 +15,12 @@ pub proof fn lemma_std_lz(v: {I})
         assert(x & 1 == 0 || x & 1 == 1) by(bit_vector);
     }
 }
-pub proof fn lemma_std_tz(v: {I})
-    ensures is_tz(v, vstd::std_specs::bits::{I}_trailing_zeros(v) as int)
+pub proof fn lemma_std_tz{X}(v: {I})
+    ensures is_tz{X}(v, vstd::std_specs::bits::{I}_trailing_zeros(v) as int)
 {
     vstd::std_specs::bits::axiom_{I}_trailing_zeros(v);
     let tz = vstd::std_specs::bits::{I}_trailing_zeros(v);
-    assert forall|j: nat| j < tz implies !wbit(v, j) by {
+    assert forall|j: nat| j < tz implies !wbit{X}(v, j) by {
         let ju = j as {I};
         assert((v >> ju) & 1{I} == 0{I});
     }
@@ -30,15 +30,15 @@ pub proof fn lemma_std_tz(v: {I})
         assert(x & 1 == 0 || x & 1 == 1) by(bit_vector);
     }
 }
-pub proof fn lemma_std_lo(v: {I})
-    ensures is_lz(!v, vstd::std_specs::bits::{I}_leading_ones(v) as int)
+pub proof fn lemma_std_lo{X}(v: {I})
+    ensures is_lz{X}(!v, vstd::std_specs::bits::{I}_leading_ones(v) as int)
 {
     vstd::std_specs::bits::axiom_{I}_leading_ones(v);
-    lemma_std_lz(!v);
+    lemma_std_lz{X}(!v);
 }
-pub proof fn lemma_std_to(v: {I})
-    ensures is_tz(!v, vstd::std_specs::bits::{I}_trailing_ones(v) as int)
+pub proof fn lemma_std_to{X}(v: {I})
+    ensures is_tz{X}(!v, vstd::std_specs::bits::{I}_trailing_ones(v) as int)
 {
     vstd::std_specs::bits::axiom_{I}_trailing_ones(v);
-    lemma_std_tz(!v);
+    lemma_std_tz{X}(!v);
 }
